@@ -53,7 +53,9 @@ def part_token(ctx):
     import random
     rng = random.Random(ctx.seed + 6)
     base = cooc_cfg.quick_cfgs()[::3] + [c for c in cooc_cfg.wide_cfgs(3, ctx.seed + 9, 60) if not any(w["table"] for w in c["wins"])]
-    cfgs = cooc_cfg.with_variable(base, rng)[: ctx.pick(16, 60)]
+    cfgs = cooc_cfg.with_variable(base, rng)
+    rng.shuffle(cfgs)
+    cfgs = cfgs[: ctx.pick(16, 60)]
     items = cooc_gen.emit_shapes(ctx, 3, ctx.pick([(4, 1)], [(5, 1), (3, 2)]), cfgs, "Cooc variable radii V=3",
                           invariants=cooc_gen.INVS + ["VariableRadiiWellFormed"])
     if ctx.quick and len(items) > 4000:
